@@ -131,7 +131,68 @@ func vmRun(fn string, canary int) HarnessRun {
 	return HarnessRun{Pkg: vmPkg, Dir: "internal/machine/vm", Mod: "ledger", Fn: fn, Shapes: allShapes, Cfg: vmCfg, Desc: shapeDesc, Canary: canary}
 }
 
+const v2Pkg = ledgerMod + "/internal/api/v2"
+
+const apiPkg = ledgerMod + "/internal/api"
+
+const lsPkg = ledgerMod + "/internal/storage/ledgerstore"
+
 var specs = map[string]*CheckSpec{
+	"C20": {
+		ID: "C20", Patterns: []string{lsPkg},
+		Runs: []HarnessRun{{Pkg: lsPkg, Dir: "internal/storage/ledgerstore", Mod: "ledger", Fn: "ZZ_C20",
+			Shapes: func(s *Session, tier string) []int {
+				all := countShapes(lsPkg, "ZZ_C20N")(s, tier)
+				maxLen := 3
+				if tier == "thorough" {
+					maxLen = 4
+				}
+				var out []int
+				for _, i := range all {
+					if i%5 <= maxLen {
+						out = append(out, i)
+					}
+				}
+				return out
+			},
+			Cfg: cmdCfg, Desc: harnessDesc(lsPkg, "ZZ_C20Desc", "filter:"), CanaryShapes: []int{1, 46}}},
+		Bounds: func(tier string) map[string]any {
+			n := 3
+			if tier == "thorough" {
+				n = 4
+			}
+			return map[string]any{"client_text": fmt.Sprintf("every byte string of length 0..%d (symbolic bytes)", n), "filters": "16 (listing, key, operator) cases: address/account/source/destination/reference/timestamp/metadata[k] value and key/balance[asset] value and asset/balance/date over the account, transaction, aggregated-balance and log listings", "outside": "bun's rendering of bound arguments; the HTTP layer (passes strings through unchanged)"}
+		},
+		Assumptions: []string{"bun renders `?` arguments as escaped literals (library contract)", "PostgreSQL with standard_conforming_strings (backslash is not an escape in '...' literals)", "the oracle is a scanner of SQL token kinds (and of JSON/jsonpath token kinds inside literals) written in the harness"},
+		Encoded:     []string{"ledgerstore.filterAccountAddress", "ledgerstore.filterAccountAddressOnTransactions", "ledgerstore.(*Store).accountQueryContext", "ledgerstore.(*Store).transactionQueryContext", "ledgerstore.(*Store).GetAggregatedBalances (matcher closure, reached through a probing query.Builder)", "ledgerstore.(*Store).logsQueryBuilder", "query.keyValue.Build", "ledgerstore.validateAddressFilter"},
+		Rule:        "per filter case and length: the clause built for arbitrary bytes is tokenised and compared with the clause built for the harmless string of the same shape; every byte's class is a solver-constrained decision",
+		MaxPaths:    func(tier string) int { return 400000 },
+	},
+	"C19": {
+		ID: "C19", Patterns: []string{apiPkg},
+		Runs: []HarnessRun{{Pkg: apiPkg, Dir: "internal/api", Mod: "ledger", Fn: "ZZ_C19", Shapes: countShapes(apiPkg, "ZZ_C19N"), Cfg: cmdCfg,
+			Desc: func(s *Session, i int) string { return fmt.Sprintf("HTTP method: arbitrary string of %d bytes", i) }, CanaryShapes: []int{3, 5}}},
+		Bounds: func(tier string) map[string]any {
+			return map[string]any{"method": "every byte string of length 0..8 (symbolic bytes)", "routes": "all routes registered by v1.NewRouter and v2.NewRouter (structural check)", "outside": "chi's matcher, third-party middlewares, request bodies (irrelevant once the method is refused before routing)"}
+		},
+		Assumptions: []string{"http.ResponseWriter is a recording stub", "layer 2/3 (router structure, handler call graph) are syntactic SSA checks, not solver verdicts"},
+		Encoded:     []string{"api.ReadOnly", "libs/api.BadRequest/WriteErrorResponse"},
+		Rule:        "one job per method length; the method bytes are solver variables, the wrapped handler sets a flag; plus SSA structure checks of the three routers",
+		Extra:       c19Extra,
+	},
+	"C18": {
+		ID: "C18", Patterns: []string{v2Pkg},
+		Runs: []HarnessRun{{Pkg: v2Pkg, Dir: "internal/api/v2", Mod: "ledger", Fn: "ZZ_C18", Shapes: countShapes(v2Pkg, "ZZ_C18N"), Cfg: cmdCfg,
+			Desc: func(s *Session, i int) string { return fmt.Sprintf("bulk of %d element(s), arbitrary actions/outcomes/continueOnFailure", i+1) }, CanaryShapes: []int{0, 1}}},
+		Bounds: func(tier string) map[string]any {
+			return map[string]any{"elements": "1..3", "actions": "the four known actions and an unknown one, chosen per element", "outcomes": "success or failure per element (symbolic Bool), three error classes", "continueOnFailure": "symbolic Bool", "payloads": "concrete well-formed JSON per action (decoded by the JSON model); malformed payloads are outside this check"}
+		},
+		Assumptions: []string{"backend.Ledger is a recording stub whose four write methods succeed or fail as the symbolic inputs say", "encoding/json modelled over ropes", "bulkHandler's HTTP plumbing (body decoding, status code) is not executed; its condition `err != nil || errorsInBulk` is covered through ProcessBulk's results"},
+		Encoded:     []string{"v2.ProcessBulk", "ledger.(*TransactionRequest).ToRunScript", "ledger.TxToScriptData", "command.IsSaveMetaError/IsDeleteMetaError", "engine.IsCommandError", "machine.IsInsufficientFundError"},
+		Rule:        "per bulk length: action and error class are enumerated decisions, failure flags and continueOnFailure are solver variables; backend calls, result positions/types and the failure signal are compared with the in-order reference",
+		Workers:     16,
+		MaxPaths:    func(tier string) int { return 200000 },
+	},
 	"C09": {
 		ID: "C09", Patterns: []string{cmdPkg}, NeedHelper: true,
 		Runs:   []HarnessRun{commandRun("ZZ_C09", countShapes(cmdPkg, "ZZ_C09N"), harnessDesc(cmdPkg, "ZZ_C09Desc", "postings (source destination asset):"), []int{1, 40, 545})},
